@@ -475,3 +475,265 @@ func srcBlock(v ssa.Value) *ssa.BasicBlock {
 	}
 	return nil
 }
+
+// quoteItemsLoop recognises, in the generator, the loop that writes one quoted word per line
+// into a bytes.Buffer:
+//
+//	for _, w := range words {
+//		if w == "" { continue }          // optional
+//		buf.WriteString(strconv.Quote(w))
+//		buf.WriteString(",\n")
+//	}
+//
+// words is the result of the tokeniser (strings.Split); the pieces written for an item are,
+// white space aside, strconv.Quote of the item followed by a comma.  The buffer then holds an
+// ItemsV piece (bufferRendered turns the whole into the equivalent template).
+func (e *Eval) quoteItemsLoop(fr *frame, h *ssa.BasicBlock, body map[*ssa.BasicBlock]bool, in State, done map[*ssa.BasicBlock]bool) bool {
+	if len(h.Succs) != 2 || len(e.activeLoops) > 0 || e.P == nil || e.P.Gen == nil {
+		return false
+	}
+	if fn := h.Parent(); fn.Pkg != e.P.Gen && (fn.Parent() == nil || fn.Parent().Pkg != e.P.Gen) {
+		return false
+	}
+	ifi, ok := h.Instrs[len(h.Instrs)-1].(*ssa.If)
+	if !ok {
+		return false
+	}
+	cont, exit := h.Succs[0], h.Succs[1]
+	if !body[cont] || body[exit] {
+		return false
+	}
+	// header: idx φ (from -1), idx+1, idx+1 < len(words)
+	var iphi *ssa.Phi
+	var inc *ssa.BinOp
+	for _, ins := range h.Instrs {
+		switch x := ins.(type) {
+		case *ssa.Phi:
+			if iphi != nil {
+				return false
+			}
+			iphi = x
+		case *ssa.BinOp:
+			if x.Op == token.ADD {
+				inc = x
+			}
+		case *ssa.DebugRef, *ssa.If, *ssa.Call:
+		default:
+			return false
+		}
+	}
+	cmp, ok := ifi.Cond.(*ssa.BinOp)
+	if !ok || cmp.Op != token.LSS || iphi == nil || inc == nil || cmp.X != ssa.Value(inc) || inc.X != ssa.Value(iphi) {
+		return false
+	}
+	if k, ok := intConst(inc.Y); !ok || k != 1 {
+		return false
+	}
+	for i, p := range h.Preds {
+		if body[p] {
+			if iphi.Edges[i] != ssa.Value(inc) {
+				return false
+			}
+		} else if k, ok := intConst(iphi.Edges[i]); !ok || k != -1 {
+			return false
+		}
+	}
+	ln, ok := cmp.Y.(*ssa.Call)
+	if !ok || !isBuiltinCall(ln, "len") {
+		return false
+	}
+	words := ln.Call.Args[0]
+	toks, ok := e.val(fr, words).(*TokensV)
+	if !ok || toks == nil || toks.Fn != "strings.Split" {
+		return false
+	}
+	// body
+	var word ssa.Value
+	var empty *ssa.BinOp
+	var bufV ssa.Value
+	var buf ResV
+	type piece struct {
+		quote bool
+		text  string
+		blk   *ssa.BasicBlock
+	}
+	var pieces []piece
+	quotes := map[ssa.Value]bool{}
+	for _, b := range fr.fn.Blocks { // in block order
+		if !body[b] || b == h {
+			continue
+		}
+		for _, ins := range b.Instrs {
+			switch x := ins.(type) {
+			case *ssa.DebugRef, *ssa.Jump, *ssa.If:
+			case *ssa.IndexAddr:
+				if x.X != words || x.Index != ssa.Value(inc) {
+					return false
+				}
+			case *ssa.UnOp:
+				ia, ok := x.X.(*ssa.IndexAddr)
+				if !ok || x.Op != token.MUL || ia.X != words || word != nil {
+					return false
+				}
+				word = x
+			case *ssa.BinOp:
+				if empty != nil || (x.Op != token.EQL && x.Op != token.NEQ) {
+					return false
+				}
+				empty = x
+			case *ssa.Call:
+				switch calleeName(x) {
+				case "strconv.Quote":
+					if word == nil || x.Call.Args[0] != word {
+						return false
+					}
+					quotes[x] = true
+				case "(*bytes.Buffer).WriteString":
+					if bufV == nil {
+						bufV = x.Call.Args[0]
+						rv, ok := e.val(fr, bufV).(ResV)
+						if !ok || rv.Kind != "bytes.Buffer" || rv.O == nil {
+							return false
+						}
+						buf = rv
+					} else if x.Call.Args[0] != bufV {
+						return false
+					}
+					if quotes[x.Call.Args[1]] {
+						pieces = append(pieces, piece{quote: true, blk: b})
+					} else if s, isC := strConst(x.Call.Args[1]); isC {
+						pieces = append(pieces, piece{text: s, blk: b})
+					} else {
+						return false
+					}
+					if refs := x.Referrers(); refs != nil {
+						for _, r := range *refs {
+							if _, dbg := r.(*ssa.DebugRef); !dbg {
+								return false // the result of the write is looked at: not this plain form
+							}
+						}
+					}
+				case "(*bytes.Buffer).WriteByte", "(*bytes.Buffer).WriteRune":
+					if bufV == nil || x.Call.Args[0] != bufV {
+						return false
+					}
+					k, isC := intConst(x.Call.Args[1])
+					if !isC || k < 0 || k > 0x7f {
+						return false
+					}
+					pieces = append(pieces, piece{text: string(rune(k)), blk: b})
+				default:
+					return false
+				}
+			default:
+				return false
+			}
+		}
+	}
+	if word == nil || bufV == nil || len(pieces) < 2 {
+		return false
+	}
+	// white space aside: the quoted word, then a comma
+	text := ""
+	nq := 0
+	for _, pc := range pieces {
+		if pc.quote {
+			nq++
+			text += "Q"
+		} else {
+			text += pc.text
+		}
+	}
+	if nq != 1 || squeeze(text) != "Q," {
+		return false
+	}
+	// the optional filter: the writes happen exactly where the word is not empty
+	skip := false
+	nIf := 0
+	for b := range body {
+		if b == h {
+			continue
+		}
+		if _, isIf := b.Instrs[len(b.Instrs)-1].(*ssa.If); isIf {
+			nIf++
+		}
+	}
+	if empty != nil {
+		other := empty.Y
+		if other == word {
+			other = empty.X
+		} else if empty.X != word {
+			return false
+		}
+		if s, isC := strConst(other); !isC || s != "" {
+			return false
+		}
+		var br *ssa.If
+		for _, ref := range *empty.Referrers() {
+			if i, ok := ref.(*ssa.If); ok {
+				br = i
+			} else if _, dbg := ref.(*ssa.DebugRef); !dbg {
+				return false
+			}
+		}
+		if br == nil || nIf != 1 {
+			return false
+		}
+		nonEmpty, isEmpty := br.Block().Succs[0], br.Block().Succs[1]
+		if empty.Op == token.EQL {
+			nonEmpty, isEmpty = isEmpty, nonEmpty
+		}
+		if len(nonEmpty.Preds) != 1 {
+			return false
+		}
+		for _, pc := range pieces {
+			if !nonEmpty.Dominates(pc.blk) {
+				return false
+			}
+		}
+		_ = isEmpty
+		skip = true
+	} else if nIf != 0 {
+		return false
+	}
+	// nothing defined in the loop is used after it
+	for b := range body {
+		for _, ins := range b.Instrs {
+			v, ok := ins.(ssa.Value)
+			if !ok || v.Referrers() == nil {
+				continue
+			}
+			for _, ref := range *v.Referrers() {
+				if _, dbg := ref.(*ssa.DebugRef); dbg {
+					continue
+				}
+				if !body[ref.Block()] {
+					return false
+				}
+			}
+		}
+	}
+	// the buffer so far: pieces only
+	c, _ := in[buf.O].(CellC)
+	var parts []AV
+	switch v := c.V.(type) {
+	case BufPartsV:
+		parts = append(parts, v.Parts...)
+	case StrV:
+		if v.Kind != skConst || v.S != "" {
+			return false
+		}
+	default:
+		return false
+	}
+	for b := range body {
+		done[b] = true
+	}
+	st := in.clone()
+	st[buf.O] = CellC{BufPartsV{Parts: append(parts, ItemsV{Toks: toks, SkipEmpty: skip, Site: ifi})}}
+	e.event("P5", Discharged, ifi, "loop in %s writes one quoted word per element of the token slice: it ends with the slice", fr.fn.Name())
+	e.Loops = append(e.Loops, LoopInfo{Fn: fr.fn, Header: h, T: -1, IV: "quoted items"})
+	e.setEdgeRaw(fr, h, exit, st)
+	fr.afterLp[exit] = true
+	return true
+}
